@@ -17,7 +17,7 @@ type SigSpec struct {
 	DSS        bool
 	Extensions bool
 	Unsigned   bool   // signature field without /V (empty signature field)
-	Container  string // classic | xrefstream | objstream
+	Container  string // classic | xrefstream | objstream | classic-indirect-annots
 }
 
 func (s SigSpec) Name() string {
@@ -156,7 +156,13 @@ func SigDoc(s SigSpec) []byte {
 	}
 	for i, pg := range pages {
 		if len(annots[i]) > 0 {
-			d.AppendEntries(pg, fmt.Sprintf("/Annots[%s]", strings.Join(annots[i], " ")))
+			if s.Container == "classic-indirect-annots" {
+				// /Annots as a reference to an array object of its own (legal and common in other producers' files)
+				arr := d.Add(fmt.Sprintf("[%s]", strings.Join(annots[i], " ")))
+				d.AppendEntries(pg, "/Annots "+Ref(arr))
+			} else {
+				d.AppendEntries(pg, fmt.Sprintf("/Annots[%s]", strings.Join(annots[i], " ")))
+			}
 		}
 	}
 	cat := ""
